@@ -1521,3 +1521,66 @@ B('c16-call-by-class-name', 'C06', 'R16.g', PARSE,
 N('c16-constant-lookup-name-test-negated', 'C16', PARSE,
   "        if not self._current_token.is_a(TokenTypes.NAME):\n            return None\n        macro = self._context.get_macro(str(self._current_token))\n        return None if macro.undefined else macro.value",
   "        if self._current_token.token_type is TokenTypes.NAME:\n            macro = self._context.get_macro(str(self._current_token))\n            return None if macro.undefined else macro.value\n        return None")
+# ---- rules derived from the mutation sweep
+B('c02-not-value-left-on-stack', 'C02', 'R02.h', PARSE,
+  "        code_gen.add_instruction(OpCode.OP, Operator.NOT)\n        if dest is not OpCode.PUSH:\n            code_gen.pop(dest)\n        return True",
+  "        code_gen.add_instruction(OpCode.OP, Operator.NOT)\n        return True")
+B('c02-inner-braces-popped-away', 'C02', 'R02.h', PARSE,
+  "            return False\n        if dest is not OpCode.PUSH:\n            code_gen.pop(dest)\n        return True\n\n    def _at_rvalue",
+  "            return False\n        code_gen.pop(dest)\n        return True\n\n    def _at_rvalue")
+B('c06-failed-operand-accepted', 'C06', 'R06.j', PARSE,
+  "        if not self._operand():\n            return False\n        self._add_instruction(self._op_code)\n\n        while",
+  "        if not self._operand():\n            return True\n        self._add_instruction(self._op_code)\n\n        while")
+B('c01-wait-statement-emits-nothing', 'C01', 'R01.g', PARSE,
+  "    def _wait(self) -> bool:\n        self._add_instruction(OpCode.WAIT)\n", "    def _wait(self) -> bool:\n")
+B('c11-union-not-emitted', 'C11', 'R01.g', PARSE,
+  "            self._add_instruction(\n                OpCode.TIME_PATTERN, SetOp.UNION, time_pattern)\n", "")
+B('c01-vm-wait-ignores-delay', 'C01', 'R01.h', MACHINE,
+  "                time /= 1000.0\n            self._clock.pause_for(time)", "                time /= 1000.0")
+B('c01-vm-wait-threshold-one', 'C01', 'R01.h', MACHINE,
+  "        elif time > 0:", "        elif time > 1:")
+N('c01-vm-wait-threshold-ge-zero', 'C01', MACHINE,
+  "        elif time > 0:", "        elif time >= 0:")
+B('c11-vm-union-dropped', 'C11', 'R11.h', MACHINE,
+  "        else:\n            self._reg.time.union(inst.param1)", "        else:\n            pass")
+B('c01-get-color-not-stored', 'C01', 'R01.i', MACHINE,
+  "                color = light.get_color()\n                self._color_to_reg(self._assure_units(color))", "                color = light.get_color()")
+B('c14-color-to-reg-mode-swapped', 'C14', 'R01.i', MACHINE,
+  "        reg = self._reg\n        if reg.unit_mode is UnitMode.RGB:", "        reg = self._reg\n        if reg.unit_mode is not UnitMode.RGB:")
+B('c07-off-sends-one', 'C07', 'R07.d', MACHINE,
+  "        return 65535 if self._reg.power else 0", "        return 65535 if self._reg.power else 1")
+B('c05-run-loop-off-by-one', 'C05', 'R05.h', MACHINE,
+  "self._reg.pc < program_len:", "self._reg.pc <= program_len:")
+B('c09-stop-job-request-dropped', 'C09', 'R09.g', JOBS,
+  "                    self._active_agent.request_stop()\n                    result = True\n                elif name in self._background:",
+  "                    result = True\n                elif name in self._background:")
+B('c09-stop-job-wrong-name-test', 'C20', 'R09.g', JOBS,
+  "                        self._active_agent.name == name):\n                    self._active_agent.request_stop()",
+  "                        self._active_agent.name != name):\n                    self._active_agent.request_stop()")
+B('c09-clear-queue-noop', 'C09', 'R09.g', JOBS,
+  "            try:\n                self._queue.clear()\n            finally:", "            try:\n                pass\n            finally:")
+B('c01-clock-elapsed-sign', 'C01', 'R01.j', CLOCK,
+  "        return time.time() - self._start_time", "        return time.time() + self._start_time")
+B('c01-pause-for-condition-negated', 'C01', 'R01.j', CLOCK,
+  "        while self.et() < self._cue_time:", "        while not self.et() < self._cue_time:")
+N('c01-pause-for-condition-mirrored', 'C01', CLOCK,
+  "        while self.et() < self._cue_time:", "        while self._cue_time > self.et():")
+B('c11-hour-zero-rejected', 'C11', 'R11.a', TIMEPAT,
+  "        return 0 <= int_hours < 24", "        return 1 <= int_hours < 24")
+B('c11-either-field-valid', 'C11', 'R11.j', TIMEPAT,
+  "        return (TimePattern.hours_valid(hours)\n                and TimePattern.minutes_valid(minutes))",
+  "        return (TimePattern.hours_valid(hours)\n                or TimePattern.minutes_valid(minutes))")
+B('c11-copy-without-alternatives', 'C11', 'R11.j', TIMEPAT,
+  "        new_pattern._alternatives = list(self._alternatives)\n", "")
+B('c11-fields-validated-swapped', 'C11', 'R11.i', TIMEPAT,
+  "            if TimePattern.patterns_valid(hours, minutes):", "            if TimePattern.patterns_valid(minutes, hours):")
+B('c11-one-digit-hour-matches-nothing', 'C11', 'R11.k', TIMEPAT,
+  "        elif len(pattern) == 1:\n            self._hour_set = set([int(pattern)])", "        elif len(pattern) == 1:\n            pass")
+B('c12-set-color-sends-nothing', 'C12', 'R12.g', LANLIGHT,
+  "        duration = param_32(duration)\n        self._impl.set_color(color, duration, True)", "        duration = param_32(duration)")
+B('c12-multizone-built-for-others', 'C12', 'R12.g', LANAPI,
+  "        if features.get('multizone', False):", "        if not features.get('multizone', False):")
+B('c15-tile-length-two', 'C15', 'R15.h', LANLIGHT,
+  '            "length": 1,\n            "colors"', '            "length": 2,\n            "colors"')
+B('c15-size-not-asked', 'C15', 'R15.h', LANLIGHT,
+  "        if self._width is None or self._height is None:\n            self._get_size()", "        if self._width is None and self._height is None:\n            self._get_size()")
